@@ -129,3 +129,22 @@ def the_check_sees_every_protected_part_and_no_unprotected_bit(ds, frame):
 ASSUMPTIONS = [
     "ideal-cipher model of AES-CBC-MAC / AES-CTR (contracts/crypto_model.py): no MAC collisions (also not on 32 transmitted bits), CTR decryption inverse to encryption under the same key and counter block and unrelated otherwise; 2^-32 / 2^-128 events treated as impossible",
 ]
+
+
+# ------------------------------------------------------------------ what the lemmas above rely on: the parsed SCF is the received octet
+
+from xknx.secure.data_secure_asdu import SecurityControlField as _SCF  # noqa: E402
+
+
+@lemma("C16", params=dict(octet=Int(0, 255)))
+def the_parsed_security_control_field_stands_for_the_received_octet(octet):
+    """The receiver authenticates the *parsed* security control field (re-serialized in block 0 / the MAC
+    input). That protects the received octet only if parsing loses nothing: every octet is refused
+    (reserved algorithm / service: ValueError, turned into a parse error by APCI.from_knx) or parses to a
+    field that serializes to exactly this octet - so a changed bit is either refused or changes the MAC
+    input."""
+    try:
+        scf = _SCF.from_knx(octet)
+    except ValueError:
+        return
+    assert scf.to_knx() == bytes([octet])
